@@ -43,7 +43,14 @@ std::string Describe(const Op& op)
     switch (op.kind) {
     case W_RECEIVE: snprintf(b, sizeof b, "receive(outputs=%ld, seed=%ld, addr_mode=%ld, fee_sel=%ld)  external tx paying wallet addresses enters the mempool", (long)op.arg(0), (long)op.arg(1), (long)op.arg(2), (long)op.arg(3)); break;
     case W_EXT_CONFLICT: snprintf(b, sizeof b, "double_spend_receive(receive#%ld, %s, seed=%ld)", (long)op.arg(0), op.mod(1, 2) ? "hold for a block" : "replace in mempool", (long)op.arg(2)); break;
-    case W_SEND: snprintf(b, sizeof b, "wallet_send(recipients=%ld, seed=%ld, flags=0x%lx, change_type=%ld)", (long)op.arg(0), (long)op.arg(1), (long)op.arg(2), (long)op.arg(3)); break;
+    case W_SEND: {
+        std::string f;
+        static const char* names[] = {"self-recipient", "subtract-fee", "include-unsafe", "explicit-feerate", "on-own-unconfirmed-change", "big", "on-unconfirmed-receive"};
+        for (int i = 0; i < 7; ++i)
+            if (op.arg(2) & (1 << i)) f += std::string(f.empty() ? "" : "|") + names[i];
+        snprintf(b, sizeof b, "wallet_send(recipients=%ld, seed=%ld, flags=%s, change_type=%ld)", (long)op.arg(0), (long)op.arg(1), f.empty() ? "-" : f.c_str(), (long)op.arg(3));
+        break;
+    }
     case W_DOUBLE_SPEND: {
         static const char* m[] = {"hold for a block", "submit to mempool", "commit through the wallet"};
         snprintf(b, sizeof b, "double_spend_wallet_send(send#%ld, %s, seed=%ld)", (long)op.arg(0), m[op.mod(1, 3)], (long)op.arg(2));
@@ -315,6 +322,7 @@ struct WalletSim {
         std::map<Txid, CTransactionRef> pool;
         std::map<COutPoint, Txid> pool_spender;
         std::map<Txid, St> status;
+        std::map<Txid, int> conflicts;                 //!< memo: bit 0 = conflicted by the chain, bit 1 = conflicted by the mempool (own inputs or an ancestor's)
         std::map<Txid, int> trusted;                   //!< memo for mempool transactions
     };
     View MakeView()
@@ -340,6 +348,26 @@ struct WalletSim {
         }
         return v;
     }
+    /** Conflicts of a known transaction that is neither in the chain nor in the mempool: one of its inputs, or of the inputs of an
+     *  ancestor that is itself neither confirmed nor in the mempool, is spent by another transaction of the chain (bit 0) / of the
+     *  mempool (bit 1). Independent of "abandoned": an abandoned ancestor passes its conflicts on all the same. */
+    int Conflicts(View& v, const Txid& id)
+    {
+        auto m = v.conflicts.find(id);
+        if (m != v.conflicts.end()) return m->second;
+        int c = 0;
+        const KTx& k = K.at(id);
+        if (!v.conf.count(id) && !v.pool.count(id) && !k.tx->IsCoinBase())
+            for (auto& in : k.tx->vin) {
+                auto a = v.chain_spender.find(in.prevout);
+                if (a != v.chain_spender.end() && a->second != id) c |= 1;
+                auto b = v.pool_spender.find(in.prevout);
+                if (b != v.pool_spender.end() && b->second != id) c |= 2;
+                if (K.count(in.prevout.hash)) c |= Conflicts(v, in.prevout.hash);
+            }
+        v.conflicts[id] = c;
+        return c;
+    }
     St Status(View& v, const Txid& id)
     {
         auto m = v.status.find(id);
@@ -349,20 +377,8 @@ struct WalletSim {
         if (v.conf.count(id)) s = CONF;
         else if (v.pool.count(id)) s = POOL;
         else {
-            bool cc = false, mc = false;
-            if (!k.tx->IsCoinBase())
-                for (auto& in : k.tx->vin) {
-                    auto a = v.chain_spender.find(in.prevout);
-                    if (a != v.chain_spender.end() && a->second != id) cc = true;
-                    auto b = v.pool_spender.find(in.prevout);
-                    if (b != v.pool_spender.end() && b->second != id) mc = true;
-                    if (K.count(in.prevout.hash)) {
-                        St ps = Status(v, in.prevout.hash);
-                        if (ps == CCONF) cc = true;
-                        if (ps == MCONF) mc = true;
-                    }
-                }
-            s = cc ? CCONF : k.abandoned ? ABANDONED : mc ? MCONF : INACTIVE;
+            int c = Conflicts(v, id);
+            s = (c & 1) ? CCONF : k.abandoned ? ABANDONED : (c & 2) ? MCONF : INACTIVE;
         }
         v.status[id] = s;
         return s;
@@ -1253,12 +1269,13 @@ Engine MakeEngine()
     e.thorough_budget_s = 900;
     e.run_timeout_s = 300;
     e.rule = "each run = one history on a real regtest node with a real descriptor wallet (SQLite, HD seed from the plan) attached through interfaces::Chain since genesis: a base chain of 101-116 blocks whose coinbases pay the wallet "
-             "with a per-run probability (so coinbases sit on both sides of the 100/101-confirmation boundary and cross it with every block and reorg), then 18-90 operations (knobs: keypool 2-9, mempool expiry 1 h-2 weeks, "
-             "on-disk node, SQLite sync mode; per-run operation mix): external receives into the mempool, their double-spends (RBF or in a block), wallet sends (1-3 recipients, self-sends, subtract-fee, explicit feerate, "
-             "include-unsafe, chained on own unconfirmed change, all change types), double-spends of wallet sends signed by the wallet but never committed (held for a block / replaced into the mempool / committed), blocks with "
-             "seeded subsets of the mempool and held conflicts, reorgs of depth 1-6 that re-include a seeded subset of the disconnected transactions, abandontransaction, clock jumps past mempool expiry, unload / offline "
-             "history / load with rescan, node restart, rescanblockchain, resubmission. The oracle runs after every operation. non-trivial = at least one wallet send or receive reached the mempool; distinct = "
-             "(tip, multiset of model transaction states, balances) fingerprints.";
+             "with a per-run probability (so coinbases sit on both sides of the 100/101-confirmation boundary and cross it with every block, reorg and invalidateblock), then 18-90 operations (knobs: keypool 2-9, mempool expiry 1 h-2 weeks, "
+             "on-disk node, SQLite sync mode; per-run operation mix) with, at 1 in 9 positions, a short scripted scenario made of the same operations: external receives into the mempool, their double-spends (RBF or in a block), wallet "
+             "sends (1-3 recipients, self-sends, subtract-fee, explicit feerate, include-unsafe, chained on own unconfirmed change or on an unconfirmed receive, all change types), double-spends of wallet sends signed by the wallet but "
+             "never committed (held for a block / replaced into the mempool / committed), joint transactions (one wallet input, one foreign input), wallet coins spent by a wallet-signed transaction that reaches the node from outside, "
+             "blocks with seeded subsets of the mempool and of the held conflicts, reorgs of depth 1-6 that re-include a seeded subset of the disconnected transactions, invalidateblock/reconsiderblock, abandontransaction, clock jumps "
+             "past mempool expiry, mempool trimming, unload / offline history / load with rescan, node restart, rescanblockchain, resubmission. The oracle runs after every operation. non-trivial = at least one wallet send or receive "
+             "reached the mempool; distinct = (tip, multiset of model transaction states, balances) fingerprints.";
     e.real_components = {"wallet::CWallet (SyncTransaction, blockConnected/blockDisconnected, MarkConflicted, RecursiveUpdateTxState, AbandonTransaction, AttachChain + ScanForWalletTransactions, LoadToWallet/updateState)",
                          "wallet::GetBalance, CachedTxIsTrusted, wallet::AvailableCoins, CreateTransaction / coin selection / signing, CommitTransaction", "DescriptorScriptPubKeyMan (HD derivation, keypool top-up)",
                          "wallet SQLite database (production options)", "interfaces::Chain (node/interfaces.cpp ChainImpl) incl. notification proxy and BroadcastTransaction", "ChainstateManager, CTxMemPool (RBF, expiry, reorg handling), ValidationSignals"};
@@ -1270,7 +1287,10 @@ Engine MakeEngine()
                      "immature = confirmed coinbase outputs with at most 100 confirmations",
                      "GetBalance(include_nonmempool=true) (the getbalances RPC view) is a pure function of chain + mempool; the default GetBalance and AvailableCoins additionally leave out coins spent by wallet transactions the wallet was "
                      "shown (notification history recorded at the validation interface) that are neither confirmed, in the mempool, conflicted by the chain or the mempool, nor abandoned",
-                     "transactions whose inputs are already spent in the chain are not committed through the wallet (the wallet has no way to learn of the conflict afterwards)"};
+                     "a transaction committed through the wallet while a mempool transaction already spends one of its inputs: whether the wallet holds its other inputs back is left undecided until the next load/rescan "
+                     "(the wallet notices mempool conflicts when the conflicting transaction arrives; the property is silent about mempool conflicts)",
+                     "a transaction committed through the wallet after the chain conflicted one of its ancestors counts as conflicted by the chain (its coins must be restored): the wallet does not do that -> violation class "
+                     "tx-committed-after-ancestor-was-conflicted-keeps-coins-reserved (reported as a finding)"};
     e.expected_probes = {"receive_unconfirmed", "wallet_send_in_mempool", "wallet_send_multi_input", "send_chained_on_own_change", "wallet_send_double_spend_built", "held_double_spend_in_block", "wallet_tx_conflicted_by_chain",
                          "conflicted_via_ancestor", "wallet_tx_conflicted_by_mempool", "inactive_wallet_tx_reserving_coins", "coin_reserved_by_inactive_tx", "abandon_ok", "abandoned_wallet_tx", "reorg", "reorg_depth_ge_3",
                          "wallet_coinbase_disconnected", "coinbase_depth_100_immature", "coinbase_depth_101_mature", "untrusted_pending_nonzero", "trusted_unconfirmed_coin", "mempool_expiry", "wallet_loaded", "load_after_offline_reorg",
